@@ -50,6 +50,8 @@ def annotation(t, names, quote: bool = False) -> str:
         return "Outside"
     if k == "alt":
         return "Vec"
+    if k == "lab":
+        return "Label"
     if k == "custom":
         return "Money"
     raise ValueError(k)
@@ -59,7 +61,7 @@ def default_of(t) -> str:
     k = t["k"]
     if k in DEFAULTS:
         return DEFAULTS[k]
-    if k in ("opt", "ref", "ext", "type", "alt", "custom"):
+    if k in ("opt", "ref", "ext", "type", "alt", "custom", "lab"):
         return "None"
     if k in ("list", "seq"):
         return "field(default_factory=list)"
@@ -123,6 +125,32 @@ class VecMapping(AlternativeMapping[Vec]):
 
     def create_from_dao(self):
         return Vec(self.x, self.y)
+
+
+@dataclass
+class Label:
+    """a dataclass persisted through an alternative mapping (lossless); `code` is unique per object"""
+    text: str = ""
+    code: int = 0
+
+
+@dataclass
+class LabelMapping(AlternativeMapping[Label]):
+    text: str
+    code: int
+
+    @classmethod
+    def create_instance(cls, obj):
+        return cls(obj.text, obj.code)
+
+    def create_from_dao(self):
+        return Label(self.text, self.code)
+
+
+@dataclass
+class Title(Label):
+    """normally mapped, but inherits from an alternatively mapped class"""
+    size: int = 0
 
 
 class Money:
@@ -238,7 +266,7 @@ def model_ir(draw, max_classes=6, grammar="diagram", allow_self=True, allow_ext=
             kind = draw(st.sampled_from(["scalar", "scalar", "opt_scalar", "list_builtin", "ref", "opt_ref", "coll_ref", "coll_ref"]
                                         + (["type"] if allow_type and grammar == "diagram" else [])
                                         + (["ext"] if allow_ext and grammar == "diagram" else [])
-                                        + (["alt", "opt_alt", "list_alt", "custom", "opt_custom"] if extras else [])))
+                                        + (["alt", "opt_alt", "list_alt", "custom", "opt_custom", "lab", "opt_lab", "list_lab"] if extras else [])))
             targets = list(range(n)) if allow_self else [x for x in range(n) if x != i]
             if not allow_mutual:
                 targets = [x for x in targets if x >= i] if allow_self else [x for x in targets if x > i]
@@ -271,6 +299,12 @@ def model_ir(draw, max_classes=6, grammar="diagram", allow_self=True, allow_ext=
                 t = {"k": "opt", "of": {"k": "alt"}}
             elif kind == "list_alt":
                 t = {"k": "list", "of": {"k": "alt"}}
+            elif kind == "lab":
+                t = {"k": "lab"}
+            elif kind == "opt_lab":
+                t = {"k": "opt", "of": {"k": "lab"}}
+            elif kind == "list_lab":
+                t = {"k": "list", "of": {"k": "lab"}}
             elif kind == "custom":
                 t = {"k": "custom"}
             elif kind == "opt_custom":
